@@ -166,8 +166,12 @@ func (column Column) Write(ctx context.Context, writer *buffer.Writer, format Fo
 	// NOTE: The length of the column value, in bytes (this count does
 	// not include itself). Can be zero. As a special case, -1 indicates a NULL
 	// column value. No value bytes follow in the NULL case.
+	//
+	// The type map returns a nil buffer whenever the given source value
+	// represents a NULL value (a untyped nil, a nil pointer or a invalid
+	// nullable value).
 	length := int32(len(bb))
-	if src == nil {
+	if bb == nil {
 		length = -1
 	}
 
